@@ -157,3 +157,156 @@ func init() {
 		return 40
 	}})
 }
+
+// c03SlowCase: the consumer has read a part, the writer closes, and the consumer
+// comes back for the rest only after the stack's housekeeping of closed sessions
+// has run (5 s tick), while other sessions keep the association busy. What was
+// received and acknowledged must still be there.
+func c03SlowCase(c *Ctx) *Result {
+	r := rngFor(c.Seed, "C03-slow", c.Idx)
+	udp := c.Idx%2 == 1
+	closerIsServer := r.Intn(2) == 0
+	total := pick(r, 3000, 20000, 100000)
+	firstPart := pick(r, 0, 1, 1000, 5000)
+	if firstPart > total {
+		firstPart = total / 2
+	}
+	wait := time.Duration(pick(r, 6500, 8000, 12000, 20000)) * time.Millisecond
+	params := map[string]interface{}{"udp": udp, "closer_is_server": closerIsServer, "bytes": total, "read_before_close": firstPart, "comes_back_after_ms": wait.Milliseconds()}
+	c.Out.Start("C03", fmt.Sprintf("C03-slow/%d/%d", c.Seed, c.Idx), c.Seed, params)
+	res := &Result{Params: params, Obs: map[string]float64{}}
+	env, err := NewEnv(EnvCfg{UDP: udp, Multiplex: 3})
+	if err != nil {
+		res.Verdict, res.Detail = Inconclusive, err.Error()
+		return res
+	}
+	defer env.Close()
+	cm, _ := env.NewClient(0, "")
+	open := func() (net.Conn, net.Conn, error) {
+		cc, err := dial(cm)
+		if err != nil {
+			return nil, nil, err
+		}
+		ch := env.Expect(sessionID(cc))
+		cc.Write([]byte("o"))
+		select {
+		case sc := <-ch:
+			b := make([]byte, 1)
+			sc.SetReadDeadline(time.Now().Add(30 * time.Second))
+			if _, err := io.ReadFull(sc, b); err != nil {
+				return nil, nil, err
+			}
+			sc.SetReadDeadline(time.Time{})
+			return cc, sc, nil
+		case <-time.After(60 * time.Second):
+			return nil, nil, fmt.Errorf("session not accepted")
+		}
+	}
+	cc, sc, err := open()
+	if err != nil {
+		res.Verdict, res.Detail = Inconclusive, err.Error()
+		return res
+	}
+	// chatter on a second session of the same association for the whole case
+	c2, s2, err := open()
+	if err != nil {
+		res.Verdict, res.Detail = Inconclusive, err.Error()
+		return res
+	}
+	stop := make(chan struct{})
+	go func() {
+		b := make([]byte, 100)
+		for {
+			n, err := s2.Read(b)
+			if n > 0 {
+				s2.Write(b[:n])
+			}
+			if err != nil {
+				return
+			}
+		}
+	}()
+	go func() {
+		b := make([]byte, 100)
+		for {
+			select {
+			case <-stop:
+				return
+			case <-time.After(300 * time.Millisecond):
+			}
+			c2.SetDeadline(time.Now().Add(20 * time.Second))
+			if _, err := c2.Write([]byte("ping")); err != nil {
+				return
+			}
+			c2.Read(b)
+		}
+	}()
+	defer close(stop)
+	closer, peer := cc, sc
+	if closerIsServer {
+		closer, peer = sc, cc
+	}
+	key := splitmix(uint64(c.Seed)*616161 + uint64(c.Idx))
+	data := make([]byte, total)
+	fillStream(key, 0, data)
+	if _, err := closer.Write(data); err != nil {
+		res.Verdict, res.Detail = Inconclusive, "write: "+err.Error()
+		return res
+	}
+	got := make([]byte, 0, total)
+	if firstPart > 0 {
+		b := make([]byte, firstPart)
+		peer.SetReadDeadline(time.Now().Add(30 * time.Second))
+		n, err := io.ReadFull(peer, b)
+		got = append(got, b[:n]...)
+		if err != nil {
+			res.Verdict, res.Detail = Inconclusive, "first part: "+err.Error()
+			return res
+		}
+		peer.SetReadDeadline(time.Time{})
+	}
+	time.Sleep(300 * time.Millisecond) // everything has arrived and is acknowledged
+	closer.Close()
+	time.Sleep(wait)
+	var rerr error
+	b := make([]byte, 8192)
+	for len(got) < total+10 {
+		peer.SetReadDeadline(time.Now().Add(30 * time.Second))
+		n, err := peer.Read(b)
+		got = append(got, b[:n]...)
+		if err != nil {
+			rerr = err
+			break
+		}
+	}
+	res.Obs["bytes_written"] = float64(total)
+	res.Obs["bytes_read"] = float64(len(got))
+	if rerr == io.EOF {
+		res.Obs["clean_eof"] = 1
+	}
+	res.Shape = shapeHash("slow", udp, closerIsServer, total, firstPart, wait)
+	tr := "tcp"
+	if udp {
+		tr = "udp"
+	}
+	if bad := checkStream(key, 0, got); bad >= 0 {
+		res.Verdict, res.Sig, res.Detail = Violated, "C03|"+tr+"|wrong-byte", fmt.Sprintf("byte %d differs", bad)
+		return res
+	}
+	if rerr == io.EOF && len(got) < total {
+		res.Verdict, res.Sig = Violated, "C03|"+tr+"|clean-eof-after-prefix|no-network-fault|consumer-comes-back-later"
+		res.Detail = fmt.Sprintf("%d bytes written and delivered, the writer closed; the consumer had read %d, came back %v later, read up to %d and then observed a clean io.EOF", total, firstPart, wait, len(got))
+		return res
+	}
+	res.Verdict = Held
+	return res
+}
+
+func init() {
+	register(&Scenario{Name: "C03-slow", Run: c03SlowCase, Cases: func(t string) int {
+		if t == "thorough" {
+			return 600
+		}
+		return 24
+	}})
+}
